@@ -192,11 +192,13 @@ pub fn check_canonical(run: &mut Run, rng: &mut Rng, set: &[MCell], flavour: &st
     // a different antichain covering the same region
     let mut refined: Vec<MCell> = Vec::new();
     let mut changed = false;
+    let mut expansions = 0;
     for c in set {
-        if c.res < MAX_RES && refined.len() < 20000 && rng.chance(0.3) {
+        if c.res < MAX_RES && refined.len() < 20000 && expansions < 300 && rng.chance(0.3) {
             let depth = 1 + rng.below(2) as i32;
             refined.extend(children_at(*c, (c.res + depth).min(MAX_RES)));
             changed = true;
+            expansions += 1;
         } else {
             refined.push(*c);
         }
@@ -296,7 +298,7 @@ fn run_c08(ctx: &Ctx) -> Run {
             if rng.below(64) == 0 {
                 crate::orc::failed_call_history(&mut rng);
             }
-            let flavour = *rng.pick(&["antichain", "complete", "multiroot", "lowres", "lowres", "overlap", "overlap", "ancestors", "lookalike", "lookalike", "spine"]);
+            let flavour = *rng.pick(&["antichain", "complete", "multiroot", "lowres", "lowres", "overlap", "overlap", "ancestors", "lookalike", "lookalike", "spine", "sized"]);
             if rng.chance(0.1) {
                 // history: a call that fails half way (a complete sibling group on a face that does not exist, after some valid
                 // cells) must leave nothing behind for the next call on this thread
@@ -312,6 +314,7 @@ fn run_c08(ctx: &Ctx) -> Run {
             }
             let set = gen::cell_set(&mut rng, flavour);
             run.count(&format!("flavour.{flavour}"));
+            run.count(&format!("input_len.{}", gen::len_bucket(set.len())));
             let a = present(&mut rng, &set);
             let b = present(&mut rng, &set);
             check_cover(run, &set, &a, &b, flavour);
@@ -338,7 +341,7 @@ fn run_c10(ctx: &Ctx) -> Run {
             if rng.below(64) == 0 {
                 crate::orc::failed_call_history(&mut rng);
             }
-            let flavour = *rng.pick(&["antichain", "complete", "multiroot", "lowres", "lowres", "lookalike", "spine"]);
+            let flavour = *rng.pick(&["antichain", "complete", "multiroot", "lowres", "lowres", "lookalike", "spine", "sized"]);
             if rng.chance(0.1) {
                 // history: a call that fails half way must leave nothing behind for the next call on this thread
                 let mut hostile: Vec<u64> = gen::cell_set(&mut rng, "antichain").iter().take(20).map(|c| encode(*c)).collect();
@@ -353,6 +356,7 @@ fn run_c10(ctx: &Ctx) -> Run {
             }
             let set = gen::cell_set(&mut rng, flavour);
             run.count(&format!("flavour.{flavour}"));
+            run.count(&format!("input_len.{}", gen::len_bucket(set.len())));
             check_canonical(run, &mut rng, &set, flavour);
         }
     })
